@@ -155,10 +155,10 @@ theorem rewindLoop_walk (W : World) (r : Nat) (n : Nat) (s : St) (rw : Bool) :
     simp only [rewindLoop]
     by_cases h : s.curH > r
     · simp only [h, ↓reduceIte, Bool.false_eq_true]
-      by_cases hp : (W.prev s.cur == 0) = true
+      by_cases hp : (!s.chain.contains (W.prev s.cur)) = true
       · simp only [hp, ↓reduceIte]
         refine ⟨?_, ?_, ?_, W.prev s.cur, ?_, ?_⟩ <;> simp [walkEnd, walkStep]
-      · have hp' : (W.prev s.cur == 0) = false := by simpa using hp
+      · have hp' : (!s.chain.contains (W.prev s.cur)) = false := by simpa using hp
         simp only [hp', Bool.false_eq_true, ↓reduceIte]
         have := ih { s with cur := W.prev s.cur, curH := W.height (W.prev s.cur) } true
         obtain ⟨h1, h2, h3, c, hw, hc⟩ := this
@@ -176,10 +176,10 @@ theorem rewindLoop_noConn (W : World) (r : Nat) (quiet : Bool) (n : Nat) (s : St
     simp only [rewindLoop]
     by_cases h : s.curH > r
     · simp only [h, ↓reduceIte]
-      by_cases hp : (W.prev s.cur == 0) = true
+      by_cases hp : (!s.chain.contains (W.prev s.cur)) = true
       · simp only [hp, ↓reduceIte]
         cases quiet <;> simp [connIds]
-      · have hp' : (W.prev s.cur == 0) = false := by simpa using hp
+      · have hp' : (!s.chain.contains (W.prev s.cur)) = false := by simpa using hp
         simp only [hp', Bool.false_eq_true, ↓reduceIte]
         have := ih { s with cur := W.prev s.cur, curH := W.height (W.prev s.cur) } true
         cases quiet <;> simp [connIds_append, connIds, this.1, this.2]
